@@ -4119,14 +4119,15 @@ func formatID(buf *TrackedBuffer, original, lowered string) {
 		isDbSystemVariable = true
 	}
 
-	for i, c := range original {
+	for i := 0; i < len(original); i++ {
+		c := original[i]
 		if !isLetter(uint16(c)) && (!isDbSystemVariable || !isCarat(uint16(c))) {
 			if i == 0 || !isDigit(uint16(c)) {
 				goto mustEscape
 			}
 		}
 	}
-	if _, ok := keywords[lowered]; ok {
+	if _, ok := keywords[lowered]; ok || original == "/" {
 		goto mustEscape
 	}
 	buf.Myprintf("%s", original)
@@ -4134,9 +4135,9 @@ func formatID(buf *TrackedBuffer, original, lowered string) {
 
 mustEscape:
 	buf.WriteByte('`')
-	for _, c := range original {
-		buf.WriteRune(c)
-		if c == '`' {
+	for i := 0; i < len(original); i++ {
+		buf.WriteByte(original[i])
+		if original[i] == '`' {
 			buf.WriteByte('`')
 		}
 	}
